@@ -1096,7 +1096,7 @@ type ccRow struct {
 	has     bool
 	life    int64
 	nocache bool
-	spec    verdict // the RFC's verdict on the text handed to the library (first Cache-Control line)
+	spec    verdict // the RFC's verdict on the header set (all Cache-Control lines)
 }
 
 // ccTable calls the real cachecontrol function the loader calls, once per header set used.
@@ -1117,8 +1117,13 @@ func (g *gen) ccTable() []ccRow {
 		req.Header.Add("Accept", "application/ld+json, application/json;q=0.9")
 		t := time.Now()
 		res := &http.Response{StatusCode: 200, Header: p.headers(t), Request: req}
+		// the loader hands the library ONE Cache-Control line: all lines of the response, comma joined
+		// (fix f797550); the primitives are recorded on exactly that text
+		if cc := res.Header.Values("Cache-Control"); len(cc) > 1 {
+			res.Header.Set("Cache-Control", strings.Join(cc, ", "))
+		}
 		reasons, exp, err := cachecontrol.CachableResponse(req, res, cachecontrol.Options{})
-		row := ccRow{p: p, store: err == nil && len(reasons) == 0, spec: p.spec(true)}
+		row := ccRow{p: p, store: err == nil && len(reasons) == 0, spec: p.spec(false)}
 		if err == nil && !exp.IsZero() {
 			row.has, row.life = true, round100(exp.Sub(t))
 		}
